@@ -359,6 +359,17 @@ func workloads() []workload {
 			"/g d length dict def d {1 index /b ne {g 3 1 roll put} {pop pop} ifelse} forall g length")
 		return pscmp.Canon(opTable, intp) + fmt.Sprint(" err=", err)
 	}})
+	// programs whose result depends on the order in which forall visits a dictionary
+	ws = append(ws, workload{"forall over a dictionary, left after the first entry", func() string {
+		intp := postscript.NewInterpreter()
+		err := intp.ExecuteString("<< /a 1 /b 2 /c 3 /d 4 >> { pop exit } forall  0 << /p 1 /q 2 /r 3 >> { exch pop exch 10 mul add } forall")
+		return pscmp.Canon(opTable, intp) + fmt.Sprint(" err=", err)
+	}})
+	ws = append(ws, workload{"ReadCMap(name and mappings chosen by forall over a dictionary)", func() string {
+		text := "/CIDInit /ProcSet findresource begin\n12 dict begin\nbegincmap\n/CMapName << /Gamma 1 /Alpha 2 /Beta 3 >> { pop exit } forall def\n/CMapType 1 def\n" +
+			"1 begincodespacerange <00> <ff> endcodespacerange\n3 begincidchar 0 << /x <41> /y <42> /z <43> >> { exch pop exch 1 add dup } forall pop endcidchar\nendcmap\nCMapName currentdict /CMap defineresource pop\nend\nend\n"
+		return observe.Run("cmap", strings.NewReader(text)).Obs
+	}})
 	return ws
 }
 
